@@ -262,4 +262,71 @@ theorem step_inv {G : Grammar} {A : Automaton} (P : Props G A) {w : List Nat} (h
         rw [← yieldList_append, ← List.reverse_append, List.take_append_drop]
         exact hyield
 
+/-- when the driver accepts on a certified automaton, the tree stack holds exactly the returned tree -/
+theorem accept_stack {G : Grammar} {A : Automaton} (P : Props G A) {w : List Nat} (hw : InputOk G w)
+    {c : Cfg} (hinv : Inv G A w c) (t : Tree) (h : step G A w c = .done (.accept t)) : c.astack = [t] := by
+  obtain ⟨pstack, astack, laidx⟩ := c
+  obtain ⟨hpath, htrees, hyield, hrange⟩ := hinv
+  simp only at hpath htrees hyield hrange ⊢
+  cases hps : pstack with
+  | nil => subst hps; cases hpath
+  | cons st rest =>
+    subst hps
+    have hst : st < A.nstates := hpath.states_lt P st (by simp)
+    have hla : nextTok G w laidx < G.ntoks := nextTok_lt hw P.wf laidx
+    cases hact : A.action st (nextTok G w laidx) with
+    | error => simp [step, hact] at h
+    | shift s' => simp [step, hact] at h
+    | reduce p =>
+      simp only [step, hact] at h
+      by_cases hle : (st :: rest).length ≤ (G.rhs p).length
+      · rw [if_pos hle] at h; cases h
+      · rw [if_neg hle] at h
+        cases hd : List.drop (G.rhs p).length (st :: rest) with
+        | nil => rw [hd] at h; cases h
+        | cons prior tl =>
+          rw [hd] at h; simp only at h
+          cases hg : A.goto prior (G.lhs p) with
+          | none => rw [hg] at h; cases h
+          | some s' => rw [hg] at h; cases h
+    | accept =>
+      obtain ⟨heof, hitem⟩ := P.actAccept st _ hst hla hact
+      obtain ⟨S, hS⟩ := P.startShape
+      obtain ⟨h1, h2, s', h3, h4⟩ := path_item P 1 st rest _ G.startProd hpath hitem
+      have hs' : s' ∈ st :: rest := List.mem_of_getElem? h3
+      have hs'lt : s' < A.nstates := hpath.states_lt P s' hs'
+      have hcore : HasItem (A.core s') G.startProd 0 := by
+        obtain ⟨i, him, hip, hid⟩ := h4
+        rcases P.justified s' hs'lt i him hid with hh | ⟨j, hjm, hj⟩
+        · rw [hip] at hh; exact hh
+        · exfalso
+          have hjp := (P.itemOk s' hs'lt j (List.mem_append_left _ hjm)).1
+          rw [hip] at hj
+          exact P.noStartRhs j.p hjp (symAt_mem hj)
+      have hsub := hpath.drop 1 h1
+      have hrest : (st :: rest).drop 1 = s' :: (st :: rest).drop 2 := by
+        cases rest with
+        | nil => simp at h3
+        | cons r rs => simp at h3; subst h3; simp
+      rw [hrest] at hsub
+      obtain ⟨hb1, hb2, _⟩ := kernel0_bottom P hsub hcore
+      have hlab1 : (astack.map (Tree.root G)).length = 1 := by
+        have : ((astack.map (Tree.root G)).drop 1).length = 0 := by rw [hb2]; rfl
+        simp only [List.length_drop, List.length_map] at this
+        simp only [List.length_map] at h1 ⊢
+        omega
+      cases astack with
+      | nil => simp at hlab1
+      | cons T ts =>
+        cases ts with
+        | cons _ _ => simp at hlab1
+        | nil =>
+          simp only [step, hact, List.getLast?_singleton] at h
+          cases T with
+          | leaf t0 i0 => simp at h
+          | node p kids =>
+            simp only at h
+            injection h with h; injection h with h
+            rw [h]
+
 end GrmVerif.Cert
